@@ -17,4 +17,6 @@ timeout 3000 make -j8
 cd ..
 ./harness/build.sh "$(pwd)/.work/bin"
 (cd tools/gotools && GOFLAGS=-mod=mod GOPROXY=off GOSUMDB=off GOTOOLCHAIN=local go build -o ../../.work/bin/mapranges ./mapranges)
+CGO_ENABLED=1 ./harness/build.sh "$(pwd)/.work/bin-race" -race || echo "race build unavailable"
+(cd tools/gotools && GOFLAGS=-mod=mod GOPROXY=off GOSUMDB=off GOTOOLCHAIN=local go build -o ../../.work/bin/effects ./effects)
 echo setup done
